@@ -114,6 +114,8 @@ struct Rec<S> {
     log: RefCell<Vec<String>>,
     /// shielding mode: log transparent inputs (outpoint -> row id) instead of shielded ones
     utxo_ids: Option<BTreeMap<(Vec<u8>, u32), i64>>,
+    /// transfer mode: outpoint -> row id, to log the transparent inputs next to the shielded ones
+    xfer_ids: BTreeMap<(Vec<u8>, u32), i64>,
 }
 
 impl<S: ChangeStrategy> ChangeStrategy for Rec<S> {
@@ -215,7 +217,15 @@ impl<S: ChangeStrategy> ChangeStrategy for Rec<S> {
         for i in ironwood.inputs() {
             ins.push((nid_generic(ofees::InputView::note_id(i)), u64::from(ofees::InputView::value(i)), ofees::InputView::note_id(i).clone()));
         }
-        let total: u64 = ins.iter().map(|x| x.1).sum();
+        let tins: Vec<(i64, u64, OutPoint)> = transparent_inputs
+            .iter()
+            .map(|i| {
+                let op = tfees::InputView::outpoint(i).clone();
+                let id = *self.xfer_ids.get(&(op.hash().to_vec(), op.n())).unwrap_or(&-1);
+                (id, u64::from(tfees::InputView::coin(i).value()), op)
+            })
+            .collect();
+        let total: u64 = ins.iter().map(|x| x.1).sum::<u64>() + tins.iter().map(|x| x.1).sum::<u64>();
         let r = self.inner.compute_balance(
             params,
             target_height,
@@ -230,6 +240,10 @@ impl<S: ChangeStrategy> ChangeStrategy for Rec<S> {
             wallet_meta,
         );
         let r = match (self.mode, r) {
+            (1, Ok(_)) if tins.len() >= 2 && ins.is_empty() => {
+                let m = tins.iter().min_by_key(|x| (x.1, x.0)).unwrap();
+                Err(ChangeError::DustInputs { transparent: vec![m.2.clone()], sapling: vec![], orchard: vec![], ironwood: vec![] })
+            }
             (1, Ok(_)) if ins.len() >= 2 && ins.iter().map(|x| x.0 .1).sum::<i64>() % 2 == 0 => {
                 let m = ins.iter().min_by_key(|x| (x.1, x.0 .1)).unwrap();
                 let (mut s, mut o, mut w) = (vec![], vec![], vec![]);
@@ -240,7 +254,7 @@ impl<S: ChangeStrategy> ChangeStrategy for Rec<S> {
                 }
                 Err(ChangeError::DustInputs { transparent: vec![], sapling: s, orchard: o, ironwood: w })
             }
-            (2, Ok(_)) if ins.len() < self.k => Err(ChangeError::InsufficientFunds {
+            (2, Ok(_)) if ins.len() + tins.len() < self.k => Err(ChangeError::InsufficientFunds {
                 available: Zatoshis::from_u64(total).unwrap(),
                 required: Zatoshis::from_u64(total + 1).unwrap(),
             }),
@@ -256,17 +270,24 @@ impl<S: ChangeStrategy> ChangeStrategy for Rec<S> {
         let res = match &r {
             Ok(b) => format!("OBal {} {}", changes_coq(b.proposed_change()), u64::from(b.fee_required())),
             Err(ChangeError::InsufficientFunds { required, .. }) => format!("OInsuff {}", u64::from(*required)),
-            Err(ChangeError::DustInputs { sapling, orchard, ironwood, .. }) => {
-                let mut d: Vec<(ShieldedPool, i64)> =
+            Err(ChangeError::DustInputs { transparent, sapling, orchard, ironwood }) => {
+                let d: Vec<(ShieldedPool, i64)> =
                     sapling.iter().chain(orchard.iter()).chain(ironwood.iter()).map(nid_generic).collect();
-                format!("ODust {}", list(d.iter().map(pid_coq)))
+                format!(
+                    "ODust {} {}",
+                    list(d.iter().map(pid_coq)),
+                    list(transparent.iter().map(|op| self.xfer_ids.get(&(op.hash().to_vec(), op.n())).unwrap_or(&-1).to_string()))
+                )
             }
             Err(_) => "OErr".to_string(),
         };
+        let mut tkey: Vec<i64> = tins.iter().map(|x| x.0).collect();
+        tkey.sort();
         self.log.borrow_mut().push(format!(
-            "({}, {}, {})",
+            "({}, {}, {}, {})",
             u32::from(anchor_height),
             list(key.iter().map(pid_coq)),
+            list(tkey.iter().map(|x| x.to_string())),
             res
         ));
         r
@@ -637,6 +658,7 @@ struct H {
     pending_t: Vec<TxId>,
     /// (outpoint txid, outpoint n, spending txid) for transactions stored in this wallet
     known_spends: Vec<(Vec<u8>, u32, [u8; 32])>,
+    used_uvalues: BTreeSet<u64>,
     plain_acct: Option<usize>,
     focus: Option<(usize, ShieldedPool)>,
     seed: u64,
@@ -733,9 +755,20 @@ impl H {
             taddrs,
             pending_t: vec![],
             known_spends: vec![],
+            used_uvalues: BTreeSet::new(),
             plain_acct: None,
             focus: None,
             seed,
+        }
+    }
+
+    /// transparent output values are kept distinct (the gather's ORDER BY value is then total)
+    fn uvalue(&mut self) -> u64 {
+        loop {
+            let v = self.value() + self.rng.below(3000);
+            if self.used_uvalues.insert(v) {
+                return v;
+            }
         }
     }
 
@@ -755,7 +788,7 @@ impl H {
         let mut h = [0u8; 32];
         h.copy_from_slice(&self.rng.bytes(32));
         let op = OutPoint::new(h, self.rng.below(3) as u32);
-        let v = self.value();
+        let v = self.uvalue();
         let mined = match self.rng.below(8) {
             0 => None,
             1 => Some(tip),
@@ -898,7 +931,7 @@ impl H {
             DustOutputPolicy::default(),
         );
         let map: BTreeMap<(Vec<u8>, u32), i64> = ud.iter().map(|u| ((u.txid.clone(), u.oidx), u.id)).collect();
-        let rec = Rec { inner, mode, k, log: RefCell::new(vec![]), utxo_ids: Some(map) };
+        let rec = Rec { inner, mode, k, log: RefCell::new(vec![]), utxo_ids: Some(map), xfer_ids: BTreeMap::new() };
         let sel = GreedyInputSelector::<TestDb>::new().with_locked_input_policy(lip.clone());
         let net = self.st.network().clone();
         let to_acct = self.accts[to].id;
@@ -1070,7 +1103,8 @@ impl H {
         let mut offs: Vec<u32> = vec![0, 2 + self.rng.below(4) as u32, 9 + self.rng.below(6) as u32];
         offs.truncate(n);
         for o in offs {
-            let v = 20000 + self.rng.below(60000);
+            let v = self.uvalue() + 15000;
+            self.used_uvalues.insert(v);
             self.put_utxo(a, Some(BlockHeight::from_u32(tipu.saturating_sub(o).max(ACTIVATION))), v);
         }
         self.plain_acct = Some(a);
@@ -1100,7 +1134,8 @@ impl H {
         let a = self.rng.below(2) as usize;
         let mut b = H::new(self.seed, 9_000_000, self.nu63);
         b.op_empty((tipu - ACTIVATION + 1) as usize, true);
-        let v = 30000 + self.rng.below(90000);
+        let v = self.uvalue() + 25000;
+        self.used_uvalues.insert(v);
         let mined = Some(BlockHeight::from_u32(tipu.saturating_sub(self.rng.below(4) as u32).max(ACTIVATION)));
         let Some(utxo) = b.put_utxo(a, mined, v) else { return };
         let inner = standard::SingleOutputChangeStrategy::<TestDb>::new(
@@ -1169,7 +1204,7 @@ impl H {
         h.copy_from_slice(&u.txid);
         let r = OutputRef::new(TxId::from_bytes(h), PoolType::TRANSPARENT, u.oidx);
         let tip = self.st.wallet().chain_height().unwrap().map(u32::from).unwrap_or(0);
-        let exp = tip + self.rng.below(8) as u32;
+        let exp = tip + 1 + self.rng.below(30) as u32;
         let k = 1 + self.rng.below(2) as u8;
         let _ = catch(|| self.st.wallet_mut().lock_outputs(&[r], owner(k), BlockHeight::from_u32(exp)));
         self.bump("op_lock_utxo");
@@ -1523,8 +1558,18 @@ impl H {
             *self.rng.pick(&pols)
         };
         let (env, _) = self.env_coq(d, &pol);
+        if !force_sapling_only && self.rng.chance(1, 4) {
+            self.op_lock_utxo();
+        }
+        let ud = self.udump();
+        let want_t = !force_sapling_only && !ud.is_empty() && self.rng.chance(2, 5);
         let mut a = self.rng.below(2) as usize;
-        if !d.rows.is_empty() && self.rng.chance(3, 4) {
+        if want_t && self.rng.chance(2, 3) {
+            let u = &ud[self.rng.below(ud.len() as u64) as usize];
+            if u.acct < 2 {
+                a = u.acct as usize;
+            }
+        } else if !d.rows.is_empty() && self.rng.chance(3, 4) {
             let r = &d.rows[self.rng.below(d.rows.len() as u64) as usize];
             if r.acct < 2 {
                 a = r.acct as usize;
@@ -1591,6 +1636,20 @@ impl H {
             })
             .max(1);
             let amt = if force_sapling_only { self.rng.range(1, 12000) } else { amt };
+            let amt = if want_t && self.rng.chance(2, 3) {
+                // around what the account's coins can pay: largest coin, two largest, minus typical fees
+                let mut vs: Vec<u64> = ud.iter().filter(|u| u.acct == a as i64 && u.spenders.is_empty()).map(|u| u.value as u64).collect();
+                vs.sort();
+                vs.reverse();
+                let base = match self.rng.below(3) {
+                    0 => vs.first().copied().unwrap_or(20000),
+                    1 => vs.iter().take(2).sum::<u64>(),
+                    _ => vs.iter().sum::<u64>(),
+                };
+                base.saturating_sub(*self.rng.pick(&[0u64, 5000, 10000, 10001, 15000, 20000, 2000])).max(1)
+            } else {
+                amt
+            };
             let amt = if canon_pay {
                 match self.rng.below(8) {
                     0 => 2_000_000,
@@ -1666,7 +1725,33 @@ impl H {
         } else {
             "None".to_string()
         };
-        let sp = SpendPolicy::shielded_pools(pools.clone()).with_locked_input_policy(lip.clone());
+        let xmap: BTreeMap<(Vec<u8>, u32), i64> = ud.iter().map(|u| ((u.txid.clone(), u.oidx), u.id)).collect();
+        // the call's transparent spend policy
+        let other = 1 - a;
+        let (tsp, tspc): (Option<zcash_client_backend::data_api::wallet::input_selection::TransparentSpendPolicy>, String) =
+            if !want_t {
+                (None, "None".into())
+            } else {
+                use zcash_client_backend::data_api::wallet::input_selection::TransparentSpendPolicy as Tsp;
+                match self.rng.below(5) {
+                    0 | 1 => (Some(Tsp::any_account_addr()), "(Some None)".into()),
+                    2 => (Some(Tsp::from_one_address(self.taddrs[a])), format!("(Some (Some [{}]))", a)),
+                    3 => (Some(Tsp::from_one_address(self.taddrs[other])), format!("(Some (Some [{}]))", other)),
+                    _ => (
+                        Some(Tsp::from_addresses(nonempty::NonEmpty::from_vec(self.taddrs.clone()).unwrap())),
+                        "(Some (Some [0; 1]))".into(),
+                    ),
+                }
+            };
+        let mut sp = SpendPolicy::shielded_pools(pools.clone()).with_locked_input_policy(lip.clone());
+        if let Some(t) = tsp.clone() {
+            sp = sp.with_transparent(t);
+        }
+        // the SELECTOR's own policy (documented for the shielding entry points only) differs from the call's
+        let sel_lip = match self.rand_lf() {
+            Lf::Unfiltered => LockedInputPolicy::Exclude,
+            Lf::Pol(p) => p,
+        };
         let (mode, k) = if force_sapling_only {
             (0u8, 0usize)
         } else {
@@ -1680,7 +1765,7 @@ impl H {
         let multi = !force_sapling_only && self.rng.chance(1, 3);
         let change_pool =
             if force_sapling_only || (!canon_pay && self.rng.bool()) { ShieldedPool::Sapling } else { ShieldedPool::Orchard };
-        let sel = GreedyInputSelector::<TestDb>::new();
+        let sel = GreedyInputSelector::<TestDb>::new().with_locked_input_policy(sel_lip.clone());
         let net = self.st.network().clone();
         let (res, log, strat) = if multi {
             let inner = standard::MultiOutputChangeStrategy::<TestDb>::new(
@@ -1693,7 +1778,7 @@ impl H {
                     Zatoshis::const_from_u64(20000),
                 ),
             );
-            let rec = Rec { inner, mode, k, log: RefCell::new(vec![]), utxo_ids: None };
+            let rec = Rec { inner, mode, k, log: RefCell::new(vec![]), utxo_ids: None, xfer_ids: xmap.clone() };
             let r = catch(|| {
                 propose_transfer::<_, _, _, _, Infallible>(
                     self.st.wallet_mut(),
@@ -1716,7 +1801,7 @@ impl H {
                 change_pool,
                 DustOutputPolicy::default(),
             );
-            let rec = Rec { inner, mode, k, log: RefCell::new(vec![]), utxo_ids: None };
+            let rec = Rec { inner, mode, k, log: RefCell::new(vec![]), utxo_ids: None, xfer_ids: xmap.clone() };
             let r = catch(|| {
                 propose_transfer::<_, _, _, _, Infallible>(
                     self.st.wallet_mut(),
@@ -1746,13 +1831,20 @@ impl H {
                     let inval: u64 = s
                         .shielded_inputs()
                         .map(|si| si.notes().iter().map(|n| u64::from(n.note().value())).sum())
-                        .unwrap_or(0);
+                        .unwrap_or(0)
+                        + s.transparent_inputs().iter().map(|o| u64::from(o.value())).sum::<u64>();
+                    let mut tids: Vec<i64> = s
+                        .transparent_inputs()
+                        .iter()
+                        .map(|o| *xmap.get(&(o.outpoint().hash().to_vec(), o.outpoint().n())).unwrap_or(&-1))
+                        .collect();
+                    tids.sort();
                     let pay: u64 = s.transaction_request().total().unwrap().map(u64::from).unwrap_or(0);
                     format!(
                         "(Step {} {} {} {} {} {} {})",
                         list(ins.iter().map(pid_coq)),
                         inval,
-                        list(s.transparent_inputs().iter().map(|_| "(-1)".to_string())),
+                        list(tids.iter().map(|x| z(*x as i128))),
                         pay,
                         changes_coq(s.balance().proposed_change()),
                         u64::from(s.balance().fee_required()),
@@ -1787,8 +1879,9 @@ impl H {
             Some(l) => format!("(Some ({}, {}))", l.owner().as_bytes()[0], l.for_blocks()),
         };
         case(format!(
-            "CPropose {} {} {} {} {} {} {} {} {} {} {} {} {}",
+            "CPropose {} {} {} {} {} {} {} {} {} {} {} {} {} {} {} {}",
             d.coq_db(),
+            list(ud.iter().map(|u| u.coq())),
             env,
             a,
             total,
@@ -1796,7 +1889,9 @@ impl H {
             boolc(orchard_out),
             list(pools.iter().map(|p| pool_name(*p).to_string())),
             pol_coq(&pol),
+            boolc(pol.allow_zero_conf_shielding()),
             lip_coq(&lip),
+            tspc,
             lockc,
             canon,
             list(log.into_iter()),
